@@ -28,7 +28,13 @@ type c07MProf struct {
 	Samples []c07MSample
 }
 
-func c07TokProf(sb *strings.Builder, ss []c07Sample, base []bool) {
+// build: samples of different builds never merge in pprof (distinct mappings/addresses); the model's
+// opaque tag carries the build so that its Merge behaves the same.
+func c07TokProf(sb *strings.Builder, ss []c07Sample, base []bool, build ...int) {
+	bld := 0
+	if len(build) > 0 {
+		bld = build[0]
+	}
 	fmt.Fprintf(sb, " %d", len(ss))
 	for i, s := range ss {
 		fmt.Fprintf(sb, " %d", len(s.Stack))
@@ -39,7 +45,7 @@ func c07TokProf(sb *strings.Builder, ss []c07Sample, base []bool) {
 		if base != nil && base[i] {
 			b = 1
 		}
-		fmt.Fprintf(sb, " %d %d %d", c07TagID(s.Tag), b, len(s.Values))
+		fmt.Fprintf(sb, " %d %d %d", c07TagID(s.Tag)+16*bld, b, len(s.Values))
 		for _, v := range s.Values {
 			fmt.Fprintf(sb, " %d", v)
 		}
@@ -52,7 +58,7 @@ func c07TokTProf(sb *strings.Builder, p *c07Prof) {
 		u := c07Units[t.Unit]
 		fmt.Fprintf(sb, " %d %d %d %d", c07TypeID(t.Type), c07UnitID(t.Unit), u.fam, u.factor)
 	}
-	c07TokProf(sb, p.Samples, nil)
+	c07TokProf(sb, p.Samples, nil, p.Build)
 }
 
 func c07TokTProfs(sb *strings.Builder, ps []c07Prof) {
@@ -96,7 +102,7 @@ func (r *c07TR) prof() []c07MSample {
 		for j, m := 0, r.n(); j < m && !r.bad; j++ {
 			st = append(st, r.n())
 		}
-		tag := r.n()
+		tag := r.n() % 16
 		b := r.n() != 0
 		s := c07MSample{Key: c07Key{Stack: c07StackStr(st), Base: b}}
 		if tag < len(c07Tags) {
